@@ -31,8 +31,8 @@ CLAIMS = {
          "assumed: the network.Reader / io.Reader / bytes.Reader contracts (C13 is not applicable, so the reader is a model), ReadTrailer and SkipTrailer frames (used at call sites, not verified); partial correctness (nosafety: bounds are assumed in these two functions); not decided: that reads do not block beyond the body, ReadBodyWithStreaming's prefetch, netpoll", "3 C14"),
  "C11": ("slice: the buffered body readers enforce the configured limit — ext.ReadBody, readBodyChunked, readBodyIdentity: on success with a positive limit the returned body is not longer than the limit (loop invariants, unbounded), a fixed-length body is exactly the announced bytes taken from the wire, and round2 is the smallest power of two above its argument",
          "not decided: equality of what an independent parser would decode, request serialisation (req.write), multipart, 100-continue, streaming mode; the reader is the assumed abstract model. Known finding: without a limit the allocation size is peer-controlled (makeslice panic)", "3 C11"),
- "C04": ("slices: a response that must not carry a body is exactly one with status 1xx, 204 or 304 (MustSkipContentLength) or with SkipBody set (MustSkipBody); SetContentLength leaves such a header untouched and otherwise stores the argument (text emptied for unknown lengths, AppendUint called with exactly the length on an emptied buffer); AppendUint: the digits it assembles are 1..20 decimal digits whose value is n and the result is dst followed by exactly those bytes; resp.Write (abstract-mode typestate): the header block goes to the writer first and once, the body only when MustSkipBody is false and non-empty, it is the response's body slice, and the Content-Length handed to the header equals its length; ext.WriteChunk writes size(len(b)), CRLF, b and, for a non-empty chunk, CRLF, in this order",
-         "not decided: what an independent client decodes; WriteHexInt's digits (pool-typed buffer), writeBodyStream, chunkedBodyWriter, flush thresholds; the fold over AppendUint's result equals the fold over its scratch buffer (extensionality step not mechanised); argsKV list helpers are assumed frames", "3 C04"),
+ "C04": ("slices: a response that must not carry a body is exactly one with status 1xx, 204 or 304 (MustSkipContentLength) or with SkipBody set (MustSkipBody); SetContentLength leaves such a header untouched and otherwise stores the argument (text emptied for unknown lengths, AppendUint called with exactly the length on an emptied buffer); AppendUint: the digits it assembles are 1..20 decimal digits whose value is n and the result is dst followed by exactly those bytes; resp.Write (abstract-mode typestate): the header block goes to the writer first and once, the body only when MustSkipBody is false and non-empty, it is the response's body slice, and the Content-Length handed to the header equals its length; ext.WriteChunk writes size(len(b)), CRLF, b and, for a non-empty chunk, CRLF, in this order; resp.writeBodyStream writes the header once and first, and body bytes, chunk terminator and trailers only when a body may be sent, the fixed-size writer gets exactly the announced length and chunked framing is announced before a chunked body",
+         "not decided: what an independent client decodes; WriteHexInt's digits (pool-typed buffer), chunkedBodyWriter, flush thresholds; the fold over AppendUint's result equals the fold over its scratch buffer (extensionality step not mechanised); argsKV list helpers are assumed frames", "3 C04"),
  "C02": ("frame slice only: the in-place header scanner never disturbs bytes it has not consumed — HeaderScanner.Next leaves its window a suffix of the old window in the same array with the same end and changes memory only inside the prefix consumed by that step; normalizeHeaderValue writes only inside the value it compacts and returns an in-place suffix; NormalizeHeaderKey changes only the letter case of the bytes of its argument",
          "not decided: the relational claim itself (identical results for all segmentations is a 2-safety property over schedules), the retry loops around errNeedMore, ReadRawHeaders/NextLine purity, HLen accounting on the folded path, the client side; partial correctness (bounds assumed in Next and normalizeHeaderValue)", "3 C02"),
 }
